@@ -20,6 +20,20 @@ class C06Queue(CQBase):
         return any(e["act"] == "Sign" and e.get("res") == "ok" for e in evs)
 
 
+class C06Resnap(CQBase):
+    """World without the late validator: key re-registration + snapshot rebuild + re-assignment to the same relayer
+    (whose remote address - part of the signing bytes - has changed)."""
+    pid = "C06"
+    prefixes = ("C06.",)
+    mc = []
+    trace_cfg = "ConsensusQueueTrace_nolate"
+    drive_env = {"VERIF_CQ_NOLATE": "1"}
+    gens = [Gen("ConsensusQueueGen", "ConsensusQueueGen_resnap_cover", "bfs", tiers=("quick", "thorough"), timeout=600)]
+
+    def nontrivial(self, evs):
+        return any(e["act"] == "Sign" and e.get("res") == "ok" for e in evs)
+
+
 class C06Bridge(BridgeBase):
     pid = "C06"
     prefixes = ("C06.",)
@@ -35,7 +49,7 @@ class C06Bridge(BridgeBase):
 
 class C06(Multi):
     pid = "C06"
-    parts = [C06Queue(), C06Bridge()]
+    parts = [C06Queue(), C06Resnap(), C06Bridge()]
 
 
 CHECK = C06()
